@@ -78,7 +78,8 @@ def _get_or_create_user(ctx, user_id):
     return user
 
 
-def _create_consumer(ctx, consumer_uuid, project, user, consumer_type_id):
+def _create_consumer(ctx, consumer_uuid, project, user, consumer_type_id,
+                     must_be_new=False):
     created_new_consumer = False
     try:
         consumer = consumer_obj.Consumer(
@@ -87,6 +88,14 @@ def _create_consumer(ctx, consumer_uuid, project, user, consumer_type_id):
         consumer.create()
         created_new_consumer = True
     except exception.ConsumerExists:
+        if must_be_new:
+            # The request stated, with a null consumer generation, that the
+            # consumer does not exist yet, but a racing request has just
+            # created it: that is a generation conflict like any other.
+            raise webob.exc.HTTPConflict(
+                'consumer generation conflict - expected null but the '
+                'consumer has been created by another request',
+                comment=errors.CONCURRENT_UPDATE)
         # Another thread created this consumer already, verify whether
         # the consumer type matches
         consumer = consumer_obj.Consumer.get_by_uuid(ctx, consumer_uuid)
@@ -167,7 +176,8 @@ def ensure_consumer(ctx, consumer_uuid, project_id, user_id,
         # No such consumer. This is common for new allocations. Create the
         # consumer record
         consumer, created_new_consumer = _create_consumer(
-            ctx, consumer_uuid, proj, user, cons_type_id)
+            ctx, consumer_uuid, proj, user, cons_type_id,
+            must_be_new=requires_consumer_generation)
 
     # Also return the project, user, and consumer type from the request to use
     # for rollbacks.
